@@ -300,6 +300,8 @@ def main():
             os.environ.pop('VERIF_RLIMIT')
             failures, undecided, compile_errors = classify(res['diags'], lm, out)
         vac = vacuity_run(mode, prop, tag) if not failures and not compile_errors else {'skipped': 'main run has failures'}
+        failures, downgraded = downgrade_uncontracted(failures, report, lm, open(out).read())
+        undecided += downgraded
         results[mode] = {'report': report, 'lm': lm, 'res': res, 'failures': failures, 'undecided': undecided,
                          'compile_errors': compile_errors, 'path': out, 'text': open(out).read(), 'vacuity': vac}
     code = finish(prop, a.tier, seed, results, t_start)
@@ -310,6 +312,29 @@ def main():
             except OSError:
                 pass
     return code
+
+
+def downgrade_uncontracted(failures, report, lm, text):
+    """a failed obligation inside a function that calls a repository function without a contract (a helper that is new
+    to this framework) is undecided, not a violation: the caller was verified against no specification of the callee"""
+    unknown = [f['qname'].split('::')[-1] for f in report['functions']
+               if not f['contracted'] and not f['qname'].startswith(('common::ContractAction', 'error::', 'common::<From'))]
+    if not unknown:
+        return failures, []
+    lines = text.split('\n')
+    keep, down = [], []
+    for f in failures:
+        fn = next((x for x in lm.functions if x['qname'] == f.get('function')), None)
+        body = '\n'.join(lines[fn['line_start'] - 1:fn['line_end']]) if fn else ''
+        hit = [u for u in unknown if re.search(r'(?<![\w.])%s\s*\(' % re.escape(u), body)]
+        if hit:
+            g = dict(f)
+            g['kind'] = 'uncontracted-callee'
+            g['message'] = 'calls %s, which has no contract in /verif/contracts; %s' % (', '.join(hit), f['message'])
+            down.append(g)
+        else:
+            keep.append(f)
+    return keep, down
 
 
 def vacuity_run(mode, prop, tag):
@@ -383,7 +408,8 @@ def finish(prop, tier, seed, results, t_start):
                                   % (mode, r['compile_errors'][0]['message'][:300]))
         for u in r['undecided']:
             fq = (u.get('function') or '').split('#')[0]
-            if fq in fns or u['kind'] == 'rlimit' and (not fq or fq in fns):
+            if fq in fns or u['kind'] == 'rlimit' and (not fq or fq in fns) or \
+                    (u['kind'] == 'uncontracted-callee' and relevant(u.get('props', []), prop)):
                 undecided_msgs.append('%s: %s in %s: %s' % (mode, u['kind'], u.get('function'), u['message'][:200]))
         vj = (r['res']['json'] or {}).get('verification-results', {})
         per_mode[mode] = {'verified': vj.get('verified'), 'errors': vj.get('errors'),
